@@ -58,6 +58,10 @@ SameMi(mi, st) ==
        IN /\ mi[j].at = e.at /\ ToSet(mi[j].opts) = e.opts /\ mi[j].sbro = e.sbro
           /\ IF e.fs = "bind" THEN mi[j].root = e.root ELSE mi[j].fs = e.fs /\ mi[j].root = "/"
 
+\* the two readings of the table (driver from outside before exec, probe from inside) must agree; the
+\* root field is left out: cgroupfs renders it relative to the reader's cgroup namespace
+MiKey(mi) == [j \in DOMAIN mi |-> <<mi[j].at, mi[j].fs, mi[j].opts, mi[j].sbro>>]
+
 ModOps(t) == { r \in ToSet(t.ops) : r.e >= 0 }          \* attempted operations
 AnyOK(t)  == \E r \in ModOps(t) : r.e = 0
 Primary(k) == CASE k = "D" -> "create" [] k = "F" -> "open_w" [] k = "P" -> "open_comm_w" [] OTHER -> "none"
@@ -108,7 +112,7 @@ Judge(o) ==
                 : m \in ToSet(o.masks) }
        \* implementation layer: the kernel's mount table is the model's
      \cup (IF ~SameMi(o.mi, exp) THEN { F("drift", "mountinfo", "", <<>>) } ELSE {})
-     \cup (IF o.hasmiin /\ o.miin # o.mi THEN { F("model", "mountinfo-inside-vs-outside", "", <<>>) } ELSE {})
+     \cup (IF o.hasmiin /\ MiKey(o.miin) # MiKey(o.mi) THEN { F("model", "mountinfo-inside-vs-outside", "", <<>>) } ELSE {})
 
 Flat == UNION { { [i |-> i, c |-> f.c, w |-> f.w, k |-> f.k, p |-> f.p] : f \in Judge(Obs[i]) } : i \in DOMAIN Obs }
 
